@@ -123,7 +123,7 @@ class Env(object):
         return L
 
 
-UNARY = ['neg', 'ls', 'rs', 'div', 'lv', 'rv', 'vadd', 'vradd', 'vsub', 'rvsub', 'sadd', 'pow']
+UNARY = ['neg', 'ls', 'rs', 'div', 'lv', 'rv', 'vadd', 'vradd', 'vsub', 'rvsub', 'sadd', 'pow', 'ls@', 'rs@', 'lv@', 'rv@']
 BINARY = ['sum', 'sub', 'comp', 'matmul']
 COMBINATORS = UNARY + BINARY
 
@@ -148,6 +148,23 @@ def build(env, kind, a, b=None, scls='gen'):
     if kind == 'rs':
         s = env.scalar(scls)
         return (op * s, lambda x: ref(s * x), lin, '(%s * %r)' % (txt, s), dom, ran)
+    # the `@` spellings of the same four products (documented as equivalent to `*`)
+    if kind == 'ls@':
+        s = env.scalar(scls)
+        return (s @ op, lambda x: s * ref(x), lin, '(%r @ %s)' % (s, txt), dom, ran)
+    if kind == 'rs@':
+        s = env.scalar(scls)
+        return (op @ s, lambda x: ref(s * x), lin, '(%s @ %r)' % (txt, s), dom, ran)
+    if kind == 'lv@':
+        if util.is_field(ran):
+            raise Skip()
+        v = env.rv(ran)
+        va = arr(ran, v)
+        return (v @ op, lambda x: va * ref(x), lin, '(v @ %s)' % txt, dom, ran)
+    if kind == 'rv@':
+        v = env.rv(dom)
+        va = arr(dom, v)
+        return (op @ v, lambda x: ref(va * x), lin, '(%s @ v)' % txt, dom, ran)
     if kind == 'div':
         s = env.scalar(scls)
         return (op / s, lambda x: ref(x / s), lin, '(%s / %r)' % (txt, s), dom, ran)
